@@ -1001,6 +1001,23 @@ class YAMLPath:
         escaped: str = value
         for symbol in symbols:
             replace_term: str = "\\{}".format(symbol)
+            if symbol != "\\" and len(symbol) == 1:
+                # Scan with the parser's own notion of escaping so that an
+                # escaped backslash directly followed by the symbol is
+                # not mistaken for an already-escaped symbol
+                scanned: str = ""
+                escape_next: bool = False
+                for char in str(escaped):
+                    if escape_next:
+                        escape_next = False
+                    elif char == "\\":
+                        escape_next = True
+                    elif char == symbol:
+                        scanned += "\\"
+                    scanned += char
+                escaped = scanned
+                continue
+
             oparts: List[str] = str(escaped).split(replace_term)
             eparts: List[str] = []
             for opart in oparts:
